@@ -86,7 +86,7 @@ func complement(m [][]int, cols int) [][]int {
 var forms = []string{"F", "FM", "I", "IP"}
 
 func (c *ccase) key() string {
-	return fmt.Sprintf("%s/n%d/m%d/%s/%s/all=%v", c.form, c.n, c.m, matrix(c.args), matrix(c.rets), c.bodyAll)
+	return fmt.Sprintf("%s%s/n%d/m%d/%s/%s/all=%v", c.form, c.embed, c.n, c.m, matrix(c.args), matrix(c.rets), c.bodyAll)
 }
 
 // buildCases enumerates the specification cases of this run.
@@ -98,8 +98,11 @@ func buildCases(rep *lib.Report) []*ccase {
 			return
 		}
 		c := &ccase{id: len(cs) + 1, n: n, m: m, args: bitsMatrix(n, n, ab), rets: bitsMatrix(n, m, rb), form: form, bodyAll: all}
-		if form == "IP" {
+		if form == "IP" || strings.HasPrefix(form, "IE") {
 			c.other = [][2][][]int{{complement(c.args, n), complement(c.rets, m)}}
+		}
+		if strings.HasPrefix(form, "IE") {
+			c.form, c.embed = "IE", strings.TrimPrefix(form, "IE:")
 		}
 		cs = append(cs, c)
 	}
@@ -115,6 +118,16 @@ func buildCases(rep *lib.Report) []*ccase {
 				for rb := uint(0); rb < 1<<uint(n*m); rb++ {
 					if n <= 2 {
 						// every form and both bodies
+						// embedded interfaces: the call is made on J (embeds I, which declares the method)
+						embeds := []string{"IE:same", "IE:diff", "IE:absentI"}
+						if lib.Thorough() {
+							for ei, e := range embeds {
+								add(n, m, ab, rb, e, (int(ab)+int(rb)+ei)%2 == 0)
+							}
+						} else {
+							h := int(ab) + int(rb) + int(lib.Seed())
+							add(n, m, ab, rb, embeds[h%3], (h/3)%2 == 0)
+						}
 						for fi, f := range forms {
 							if lib.Thorough() {
 								add(n, m, ab, rb, f, true)
@@ -150,7 +163,7 @@ func buildCases(rep *lib.Report) []*ccase {
 	}
 	for k := 0; k < nMore; k++ {
 		n, m := 1+r.Intn(3), r.Intn(3)
-		add(n, m, uint(r.Intn(1<<uint(n*n))), uint(r.Intn(1<<uint(n*m))), []string{"FV", "MV"}[k%2], r.Intn(2) == 0)
+		add(n, m, uint(r.Intn(1<<uint(n*n))), uint(r.Intn(1<<uint(n*m))), []string{"FV", "MV", "IE:onlyI", "IE:diff"}[k%4], r.Intn(2) == 0)
 	}
 	rep.Extra["function_value_and_method_value_cases"] = nMore
 	rep.Extra["exhaustive_up_to_arity"] = maxExh
@@ -240,6 +253,8 @@ func field(fields []string, name string) string {
 	return ""
 }
 
+var bisectDepth int
+
 var calleeCode = regexp.MustCompile(`\((SA|CG|IC|IM)\)call:`)
 var sinkNum = regexp.MustCompile(`^sink_(\d+)$`)
 
@@ -273,6 +288,21 @@ func runBatch(rep *lib.Report, batch int, cs []*ccase, onDemand bool) bool {
 	}
 	res := l.Analyze(taintrun.Options{YAML: yaml})
 	if !res.OK() || res.Analysis.State == nil {
+		if len(cs) == 1 {
+			c := cs[0]
+			rep.Fail("analysis-crash:"+c.key(), fmt.Sprintf("the taint analysis does not complete on a one-call program with a specification: %v %s", res.LoadErr, firstLine(res.Panic)), caseReplay(c, cs, mod), false)
+			return false
+		}
+		if bisectDepth < 14 {
+			// isolate one crashing case: the half that still crashes is searched again
+			bisectDepth++
+			half := len(cs) / 2
+			if !runBatch(rep, batch*2+1000, cs[:half], onDemand) {
+				return false
+			}
+			runBatch(rep, batch*2+1001, cs[half:], onDemand)
+			return false
+		}
 		rep.Fail(fmt.Sprintf("analysis-failed:%d", batch), fmt.Sprintf("taint analysis did not complete: loadErr=%v panic=%s", res.LoadErr, firstLine(res.Panic)), []byte(progText+"\n/* specs.json\n"+specText+"\n*/\n"), true)
 		return false
 	}
@@ -304,6 +334,11 @@ func runBatch(rep *lib.Report, batch int, cs []*ccase, onDemand bool) bool {
 			key = "(*" + mod + ".T)." + c.fname()
 		case "I", "IP":
 			key = fmt.Sprintf("%s.I_%d.%s", mod, c.id, c.fname())
+		case "IE":
+			key = fmt.Sprintf("%s.J_%d.%s", mod, c.id, c.fname())
+			if c.embed == "onlyI" {
+				key = fmt.Sprintf("%s.I_%d.%s", mod, c.id, c.fname())
+			}
 		}
 		g := st.DataFlowContracts[key]
 		if g == nil {
@@ -322,7 +357,7 @@ func runBatch(rep *lib.Report, batch int, cs []*ccase, onDemand bool) bool {
 		}
 		fmt.Fprintf(&in, "app\t%d\t%d\t%d\t%s\t%s\t%s\n", c.id, np, nr, hr, matrix(c.args), matrix(c.rets))
 		checks = append(checks, check{kind: "app", c: c, real: fmt.Sprintf("out=%s\tin=%s", out, inn)})
-		wantIface := c.form == "I" || c.form == "IP"
+		wantIface := c.form == "I" || c.form == "IP" || c.form == "IE"
 		if g.IsInterfaceContract != wantIface || !g.IsPreSummarized || !g.Constructed {
 			rep.Fail("contract-flags:"+c.key(), fmt.Sprintf("contract graph flags: IsInterfaceContract=%v IsPreSummarized=%v Constructed=%v", g.IsInterfaceContract, g.IsPreSummarized, g.Constructed), caseReplay(c, cs, mod), true)
 		}
@@ -352,6 +387,29 @@ func runBatch(rep *lib.Report, batch int, cs []*ccase, onDemand bool) bool {
 			readCaller(sc, st, st.FlowGraph.Summaries[caller], g, key, mod)
 			if sc.shapeErr != "" {
 				rep.Fail("harness-shape:"+c.key(), "caller graph outside the modelled family: "+sc.shapeErr, caseReplay(c, cs, mod), true)
+				continue
+			}
+			if c.form == "IE" && c.embed == "onlyI" {
+				// no specification applies to a call on J (the key is the static receiver type J.M): the
+				// specification written for I.M must NOT be applied; the analysed body decides
+				kk := c.key() + fmt.Sprintf("/src=%d", i)
+				rep.Case(kk)
+				rep.Count("form=IE:onlyI")
+				var want []string
+				if c.bodyAll {
+					for j := 0; j < c.m; j++ {
+						want = append(want, fmt.Sprintf("R%d", j))
+					}
+					for k := 0; k < c.n; k++ {
+						if k != i {
+							want = append(want, fmt.Sprintf("A%d", k))
+						}
+					}
+				}
+				if w, real := join(want), join(sc.real); w != real {
+					content := append(caseReplay(c, cs, mod), []byte(fmt.Sprintf("\n/* source at argument %d (source_%d)\n   the body flows %s; the spec of I.M (not applicable to a call on J) lists %s\n   real tool reports: %s\n*/\n", i, sid(c, i), w, listed(c, sc), real))...)
+					rep.Fail("contract-flows:"+kk, fmt.Sprintf("call on the embedding interface J without a spec for J.M: expected the flows of the analysed body (%s), tool reports %s (the spec of the declaring interface I.M lists %s)", w, real, listed(c, sc)), content, false)
+				}
 				continue
 			}
 			if c.form == "MV" {
@@ -529,7 +587,7 @@ func readCaller(sc *subcase, st *dataflow.AnalyzerState, caller *dataflow.Summar
 		sc.shapeErr = fmt.Sprintf("%d call nodes for the call to %s", nCallees, c.fname())
 		return
 	}
-	if c.form == "MV" {
+	if c.form == "MV" || (c.form == "IE" && c.embed == "onlyI") {
 		// every argument (and the captured receiver) is a pointer: observable after the call
 		sc.ptr = strings.Repeat("1", c.n)
 		return
@@ -570,11 +628,17 @@ func readCaller(sc *subcase, st *dataflow.AnalyzerState, caller *dataflow.Summar
 		ic = impl
 	case "IP":
 		ic, fcs = impl, impl
+	case "IE":
+		ic = impl
+	}
+	oic := "-"
+	if c.form == "IE" && (c.embed == "same" || c.embed == "diff") {
+		oic = fmt.Sprintf("%s.I_%d.%s", mod, c.id, c.fname())
 	}
 	// the implementation (or function) always has a body in the program; whether a summary was built
 	// from it is what ShouldBuildSummary decides, the model is told it exists to show it is not used
 	built := impl
-	sc.linkInput = fmt.Sprintf("link\t%d.%d\t%s\t%s\t%s\t%s\t%s\t%s\t%s\n", c.id, sc.i, static, invoke, mk, impl, ic, fcs, built)
+	sc.linkInput = fmt.Sprintf("link\t%d.%d\t%s\t%s\t%s\t%s\t%s\t%s\t%s\t%s\n", c.id, sc.i, static, invoke, mk, impl, ic, fcs, built, oic)
 	// caller-side edges
 	ptr := make([]byte, c.n)
 	for k := range ptr {
